@@ -399,6 +399,125 @@ def run_find(root, backend, name, consume=False):
     return None
 
 
+def gcc_depfile_roundtrip(hname, scratch, env, obj='main.o', enc='main.o'):
+    """reference without bfg9000: can make consume the depfile gcc writes for this header name
+    (and this object path, written `enc` in the hand-written Makefile)?"""
+    d = os.path.join(scratch, 'gccref')
+    shutil.rmtree(d, ignore_errors=True)
+    os.makedirs(d)
+    with open(os.path.join(d, hname), 'w') as f:
+        f.write('#define V 1\n')
+    with open(os.path.join(d, 'main.c'), 'w') as f:
+        f.write('#include "%s"\nint main(void){return V;}\n' % hname)
+    with open(os.path.join(d, 'Makefile'), 'w') as f:
+        q = recipe_arg(obj)
+        f.write('%s: main.c\n\tgcc -c main.c -MMD -MF %s.d -o %s\n-include %s.d\n' % (enc, q, q, enc))
+    os.makedirs(os.path.dirname(os.path.join(d, obj)), exist_ok=True)
+    rc, out = run_make(d, env)
+    if rc != 0:
+        return False
+    m1 = os.stat(os.path.join(d, obj)).st_mtime_ns
+    rc, out = run_make(d, env)
+    if rc != 0 or os.stat(os.path.join(d, obj)).st_mtime_ns != m1:
+        return False
+    proj.modify(os.path.join(d, hname))
+    rc, out = run_make(d, env)
+    return rc == 0 and os.stat(os.path.join(d, obj)).st_mtime_ns != m1
+
+
+def gcc_lifecycle_roundtrip(hname, scratch, env):
+    """reference without bfg9000 for the WHOLE life of a header dependency: a hand-written
+    Makefile including the depfile gcc itself writes with -MMD -MP (gcc's own empty rules for
+    vanished headers): build, no-op, modify -> recompile, remove header and #include -> rebuild"""
+    d = os.path.join(scratch, 'gcclife')
+    shutil.rmtree(d, ignore_errors=True)
+    os.makedirs(d)
+    with open(os.path.join(d, hname), 'w') as f:
+        f.write('#define V 1\n')
+    with open(os.path.join(d, 'main.c'), 'w') as f:
+        f.write('#include "%s"\nint main(void){return V;}\n' % hname)
+    with open(os.path.join(d, 'Makefile'), 'w') as f:
+        f.write('main.o: main.c\n\tgcc -c main.c -MMD -MP -MF main.o.d -o main.o\n-include main.o.d\n')
+    obj = os.path.join(d, 'main.o')
+    rc, out = run_make(d, env)
+    if rc != 0:
+        return False
+    m1 = os.stat(obj).st_mtime_ns
+    rc, out = run_make(d, env)
+    if rc != 0 or os.stat(obj).st_mtime_ns != m1:
+        return False
+    proj.modify(os.path.join(d, hname))
+    rc, out = run_make(d, env)
+    if rc != 0 or os.stat(obj).st_mtime_ns == m1:
+        return False
+    proj.tick()
+    with open(os.path.join(d, 'main.c'), 'w') as f:
+        f.write('int main(void){return 2;}\n')
+    os.remove(os.path.join(d, hname))
+    proj.tick()
+    rc, out = run_make(d, env)
+    return rc == 0
+
+
+def header_feasible(backend, hname, scratch, env):
+    """can the header name be carried at all: by #include "...", by a hand-written Makefile, by the
+    depfile gcc itself writes (make backend); inside refninja's depfile dialect (ninja backend)"""
+    if any(c in hname for c in '"\\\n') or hname.endswith(' '):
+        return False
+    if backend == 'ninja':
+        return not any(c in hname for c in '?*[]%:|\t') and not hname.startswith('~')
+    return slot_witness('prereq', 'S/' + hname, hname, scratch, env) is not None and \
+        gcc_lifecycle_roundtrip(hname, scratch, env)
+
+
+def run_header(root, backend, name):
+    """a header with the name, included by a C file compiled by the REAL gcc: the depfile gcc
+    writes and bfg9000-depfixer post-processes must name that file through its whole life"""
+    hname = name + '.h'
+    src, bld = os.path.join(root, 'src'), os.path.join(root, 'bld')
+    shutil.rmtree(root, ignore_errors=True)
+    try:
+        bfg.write_tree(src, {hname: '#define V 1\n', 'main.c': '#include "%s"\nint main(void){return V;}\n' % hname,
+                             'build.bfg': "executable('hp', ['main.c'])\n"})
+    except OSError:
+        return None
+    stub = bfg.make_stubbin(os.path.join(root, 'bin'), names=[], extra=[])
+    env = bfg.base_env(stub, extra={'CC': '/usr/bin/gcc'})
+    r = bfg.configure(src, bld, backend, env)
+    if r.rc != 0:
+        return 'configure fails: ' + (r.err.strip().splitlines()[-1][:200] if r.err.strip() else '')
+    obj = os.path.join(bld, 'hp.int', 'main.o')
+
+    def build(targets=()):
+        return bfg.build(backend, bld, list(targets), env, timeout=60)
+    rc, out = build()
+    if rc != 0 or not os.path.exists(obj):
+        return 'build fails: ' + out[-250:]
+    m1 = os.stat(obj).st_mtime_ns
+    rc, out = build()
+    if rc != 0 or os.stat(obj).st_mtime_ns != m1:
+        return 'second build is not a no-op: ' + out[-200:]
+    proj.modify(os.path.join(src, hname))
+    rc, out = build()
+    if rc != 0:
+        return 'rebuild after modifying the header fails: ' + out[-250:]
+    if os.stat(obj).st_mtime_ns == m1:
+        return 'a change of the header is not noticed (object not recompiled)'
+    # the header goes away together with its #include
+    proj.tick()
+    with open(os.path.join(src, 'main.c'), 'w') as f:
+        f.write('int main(void){return 2;}\n')
+    os.remove(os.path.join(src, hname))
+    proj.tick()
+    rc, out = build()
+    if rc != 0:
+        return 'build fails after the header and its #include were removed: ' + out[-250:]
+    rc, out = build(['clean'])
+    if rc != 0 or os.path.exists(obj):
+        return 'clean fails or leaves the object: ' + out[-200:]
+    return None
+
+
 def run_install(root, backend, name):
     """a data file with the name, installed by the real doppel through the generated install rule
     and removed again by uninstall (the name only ever appears as a command argument)"""
@@ -465,6 +584,12 @@ def _shard(arg):
                 excluded.append('find')
             results['install'] = run_install(os.path.join(root, 'p'), backend, name)
             n += 1
+            if do_find == 'all' or len(name) >= 3:
+                if header_feasible(backend, name + '.h', root, env):
+                    results['header'] = run_header(os.path.join(root, 'p'), backend, name)
+                    n += 1
+                else:
+                    excluded.append('header')
             if feasible(backend, 'findsrc', name, wit):
                 results['findsrc'] = run_find(os.path.join(root, 'p'), backend, name, consume=True)
                 n += 1
@@ -485,7 +610,7 @@ def run(ctx):
     shards = []
     for b in ('make', 'ninja'):
         for ch in core.chunks(core.seeded_order(nl, ctx.seed), max(4, len(nl) // (3 * core.NCPU))):
-            shards.append((b, ch, True))
+            shards.append((b, ch, 'all' if ctx.thorough else True))
     res = core.pmap(_shard, shards)
     evals = 0
     demanded = excluded = 0
@@ -531,7 +656,7 @@ def run(ctx):
              'a hand-written reference Makefile (search over raw/backslash encodings per special character, run by the '
              'real make) can express the name in every slot the role uses; for Ninja when the name has no `|`. '
              'distinct = names' % (len(nl), '; all pairs of special characters xc1c2y' if ctx.thorough else '',
-                                   ROLES + ['find', 'findsrc', 'install']),
+                                   ROLES + ['find', 'findsrc', 'install', 'header (real gcc + depfixer)']),
         samples=samples or [dict(name=nl[0])],
         exhaustive=True, demanded=demanded, excluded_infeasible=excluded,
         excluded_names={k: ''.join(sorted(set(''.join(c for c in n if not c.isalnum()) for n in v)))[:80]
@@ -548,7 +673,9 @@ def replay(rec):
     root = os.path.join(core.worker_dir(), 'c04r')
     shutil.rmtree(root, ignore_errors=True)
     os.makedirs(root)
-    if c['role'] == 'install':
+    if c['role'] == 'header':
+        v = run_header(os.path.join(root, 'p'), c['backend'], c['name'])
+    elif c['role'] == 'install':
         v = run_install(os.path.join(root, 'p'), c['backend'], c['name'])
     elif c['role'] in ('find', 'findsrc'):
         v = run_find(os.path.join(root, 'p'), c['backend'], c['name'], consume=c['role'] == 'findsrc')
